@@ -347,8 +347,8 @@ def _dbg(msg, t0=[time.time()]):
 def run(tier, seed):
     rng = random.Random(seed)
     quick = tier == "quick"
-    M = 4 if quick else 5
-    angles = "{1, 3}" if quick else "{1, 3, 6, 11}"
+    M = 4                                            # angle unit pi/4: 2*pi = 8 units, 4*pi = 16 units
+    angles = "{1, 3}" if quick else "{1, 2, 3, 6}"
     assumptions = [
         "angles on the lattice a*4*pi/2^M (results compared at 1e-8); the round(.,10) tolerance of the hash is not probed",
         "default.qubit, numpy interface, analytic tapes are judged; a finite-shot tape only serves as a near-duplicate",
@@ -383,14 +383,15 @@ def run(tier, seed):
                 if m == "expval":
                     chosen.append((gi, m))
             elif kind == "inj4":
-                (chosen if (m == "expval" or not quick) else rest).append((gi, m))
+                if m == "expval" or (m == "state" and not quick):
+                    chosen.append((gi, m))
             elif kind in ("collide3", "dup3"):
                 (chosen if (m in ("state", "expval") or not quick) else rest).append((gi, m))
-            elif risky(g["keyc"], g["resc"][m]) or not quick:
+            elif risky(g["keyc"], g["resc"][m]):
                 chosen.append((gi, m))
             else:
                 rest.append((gi, m))
-    n_sample = 260 if quick else 0
+    n_sample = 260 if quick else 1500
     rng.shuffle(rest)
     chosen += rest[:n_sample]
     # hash binding on ALL groups (one measurement type): model key classes == classes of tape.hash ?
@@ -554,7 +555,9 @@ def run(tier, seed):
            "distinct_nontrivial": len(nontriv),
            "rule": "non-trivial = distinct (tape group, measurement type, cache configuration, history) in which the real cache served at least "
                    "one hit or evicted an entry, or whose trace was rejected",
-           "samples": samples, "exhaustive": not quick,
+           "samples": samples, "exhaustive": False,
+           "exhaustive_note": "TLC enumerates every group and every history inside the bounds; replayed: every group whose model keys collide with "
+                              "different results, the state-machine groups, and a seeded sample of the remaining (group, measurement) instances",
            "key_model": {"groups": len(groups), "by_mutation": dict(Counter(g["mut"]["kind"] for g in groups)),
                          "model_key_unsound_groups_by_measurement": dict(model_unsound),
                          "states": kg.distinct, "ring_level_M": M, "angles": angles},
